@@ -38,6 +38,7 @@ const (
 	msgShift  = 500 * time.Microsecond // message times: whole milliseconds + 0.5 ms, never a polling instant
 	stepShift = 750 * time.Microsecond // timed plan steps: whole milliseconds + 0.75 ms
 	rescueFor = 600 * time.Second      // accounts arm: how long a perfect network may need after the limit
+	poisonFor = 300 * time.Second      // accounts arm: after that every destination write fails, for this long
 )
 
 // expected is one trie the sync must have reconstructed.
@@ -113,6 +114,9 @@ type run struct {
 	cancel     context.CancelFunc
 	ending     bool
 	rescue     bool
+	poisoned   bool
+	gaveUp     bool
+	putErrBase int
 	stop       bool
 }
 
@@ -708,6 +712,9 @@ func (r *run) drive() {
 		limit = time.Second + stepShift
 	}
 	hard := limit + rescueFor
+	if r.gaveUp {
+		return
+	}
 	for {
 		synctest.Wait()
 		r.mu.Lock()
@@ -728,8 +735,17 @@ func (r *run) drive() {
 			}
 			r.enterRescue()
 		}
-		if now >= hard {
-			r.c.HarnessErr("the syncer did not return %v after the limit on a perfect network", rescueFor)
+		if r.rescue && now >= hard && !r.poisoned {
+			// Not a verdict and not a harness error: the statement speaks about syncs that complete. SyncAccounts has
+			// no context, so the only way left to make it return is to let every write to the destination fail.
+			r.poisoned = true
+			r.probe("sync_never_returned_on_perfect_network")
+			r.putErrBase = r.c.Faults["put_error"]
+			r.destDisk.ArmAll("put_error")
+		}
+		if r.poisoned && now >= hard+poisonFor {
+			r.gaveUp = true
+			r.probe("sync_unstoppable")
 			return
 		}
 		r.deliverDue(now)
@@ -750,8 +766,10 @@ func (r *run) drive() {
 	}
 }
 
-// enterRescue (accounts arm, which has no context to cancel): from now on the network is perfect and a full
-// honest peer answers, so that SyncAccounts returns.
+// enterRescue (accounts arm, which has no context to cancel): from now on the network is perfect, one full honest
+// peer answers with the resolver's own prefetch budget, the destination disk has no faults and the intercepted-nodes
+// cacher is replaced by a roomy one (all syncer goroutines are parked in their polling sleep when this runs), so that
+// SyncAccounts returns.
 func (r *run) enterRescue() {
 	r.mu.Lock()
 	defer r.mu.Unlock()
@@ -759,24 +777,23 @@ func (r *run) enterRescue() {
 	r.destDisk.Disarm()
 	r.net = netCfg{seed: r.net.seed, maxDelay: 3, fanout: 1}
 	r.queue = nil
-	var full *peerT
-	for _, q := range r.peers {
-		q.partitioned = false
-		if q.kind == peerFull && full == nil {
-			full = q
-		}
+	full := &peerT{id: 9, kind: peerFull, pid: core.PeerID("peer-rescue")}
+	res, err := resolvers.NewTrieNodeResolver(resolvers.ArgTrieNodeResolver{
+		SenderResolver: &sender{r: r, p: full}, TrieDataGetter: &clampGetter{t: r.srcTrie, clamp: -1}, Marshalizer: triekit.Marshalizer,
+		AntifloodHandler: permissive{}, Throttler: permissive{},
+	})
+	if err != nil {
+		r.c.HarnessErr("rescue resolver: %v", err)
+		return
 	}
-	if full == nil {
-		full = &peerT{id: 9, kind: peerFull, pid: core.PeerID("peer-rescue")}
-		res, err := resolvers.NewTrieNodeResolver(resolvers.ArgTrieNodeResolver{
-			SenderResolver: &sender{r: r, p: full}, TrieDataGetter: &clampGetter{t: r.srcTrie, clamp: -1}, Marshalizer: triekit.Marshalizer,
-			AntifloodHandler: permissive{}, Throttler: permissive{},
-		})
-		if err != nil {
-			r.c.HarnessErr("rescue resolver: %v", err)
-			return
+	full.resolver = res
+	// no cache pressure either: the recorder now forwards to a cacher that holds every node of the source
+	if rc, ok := r.cacher.(*recCacher); ok {
+		if big, err := lrucache.NewCache(1000000); err == nil {
+			old := rc.Cacher
+			rc.Cacher = big
+			_ = old.Close()
 		}
-		full.resolver = res
 	}
 	full.slow = 0
 	r.peers = []*peerT{full}
@@ -786,6 +803,18 @@ func (r *run) enterRescue() {
 func (r *run) judge() bool {
 	c := r.c
 	r.destDisk.Disarm()
+	if r.poisoned { // writes failed on purpose to end the run: not an injected fault of the plan
+		c.Faults["put_error"] = r.putErrBase
+		if r.putErrBase == 0 {
+			delete(c.Faults, "put_error")
+		}
+	}
+	if r.gaveUp {
+		return false
+	}
+	if r.poisoned {
+		r.probe("ended_by_failing_every_write")
+	}
 	faultfree := c.Plan.Arm == "faultfree"
 	if faultfree {
 		r.probe("faultfree_runs")
